@@ -44,6 +44,6 @@ def fileLockModes : List String := ["AddMessage:W", "GetMessage:R", "GetMessages
 def fileVisitReadsLocked : Bool := true
 
 /-- HashLock is an array of 4096 locks and Get(h) returns &<recv>[i] with i from strconv.ParseInt(h[0:3], 16, ..); every file-store function that asks the HashLock field for Get(h) builds the mailbox path as filepath.Join(<recv>.<root>, h[0:3], .., h) from the same never-reassigned h and returns it inside the mailbox: one lock bucket = one level-1 directory -/
-def fileBucketIsLevel1Dir : Bool := false
+def fileBucketIsLevel1Dir : Bool := true
 
 end Ibx.Gen.Conc
